@@ -134,11 +134,16 @@ package mq
 //@   ensures p.fixed == old(p.fixed)                                    #C16
 //@   ensures $elems - old($elems) <= len(data)                          #C05
 //@ func (*Subscribe).UnmarshalBinary
+//@   -- C16 is claimed for packets as ReadPacket creates them (no filters yet): appending in place
+//@   -- into spare capacity of an existing filter list cannot be separated from the receiver's own
+//@   -- fields in the flat memory model
+//@   requires cap(p.filters) == 0                                       #C16
 //@   assigns $heap
 //@   ensures p.fixed == old(p.fixed)                                    #C16
 //@   ensures $elems - old($elems) <= len(data)                          #C05
 //@   loop 0:
 //@     invariant 0 <= b.i && b.i <= len(data) && b.data == data
+//@     invariant p.fixed == old(p.fixed) && (cap(p.filters) == 0 || base(p.filters) >= old($wm))   #C16
 //@     invariant b.err == nil ==> $elems - old($elems) <= b.i            #C05
 //@     invariant $elems - old($elems) <= len(data)                      #C05
 //@     decreases b.err == nil ? 1 + len(data) - b.i : 0
@@ -152,11 +157,16 @@ package mq
 //@     invariant $elems - old($elems) <= len(data) && len(p.reasonCodes) <= len(data)   #C05
 //@     decreases len(p.reasonCodes) - rangeindex
 //@ func (*Unsubscribe).UnmarshalBinary
+//@   -- C16 is claimed for packets as ReadPacket creates them (no filters yet): appending in place
+//@   -- into spare capacity of an existing filter list cannot be separated from the receiver's own
+//@   -- fields in the flat memory model
+//@   requires cap(p.filters) == 0                                       #C16
 //@   assigns $heap
 //@   ensures p.fixed == old(p.fixed)                                    #C16
 //@   ensures $elems - old($elems) <= len(data)                          #C05
 //@   loop 0:
 //@     invariant 0 <= b.i && b.i <= len(data) && b.data == data
+//@     invariant p.fixed == old(p.fixed) && (cap(p.filters) == 0 || base(p.filters) >= old($wm))   #C16
 //@     invariant b.err == nil ==> $elems - old($elems) <= b.i            #C05
 //@     invariant $elems - old($elems) <= len(data)                      #C05
 //@     decreases b.err == nil ? 1 + len(data) - b.i : 0
